@@ -167,13 +167,15 @@ def mk (D : DimOps V I) (H : ShapeH V I σ) (op : String) : Option Handler :=
       model := fun a => run (do let s ← H.parse; let p ← D.pv; let so ← pbool; pure (fpp D (H.project s p so))) a
       oracle := fun a o => match run (do let s ← H.parse; let p ← D.pv; let so ← pbool; pure (s, p, so)) a with
         | some (s, p, so) => withOut (ppOut D) o fun (ins, pr) =>
-            if vNan D pr then "fail nan-projection" else judgeProj D (H.spec s) (D.qv p) so ins (D.qv pr)
+            if !(H.spec s).valid then "skip shape-outside-domain"
+            else if vNan D pr then "fail nan-projection" else judgeProj D (H.spec s) (D.qv p) so ins (D.qv pr)
         | none => "skip bad-args" }
   | "dist" => some {
       model := fun a => run (do let s ← H.parse; let p ← D.pv; let so ← pbool; pure (ff (H.distance s p so))) a
       oracle := fun a o => match run (do let s ← H.parse; let p ← D.pv; let so ← pbool; pure (s, p, so)) a with
         | some (s, p, so) => withOut pfo o fun d =>
-            if d.isNaN then "fail nan-distance" else judgeDist D (H.spec s) (D.qv p) so (q d)
+            if !(H.spec s).valid then "skip shape-outside-domain"
+            else if d.isNaN then "fail nan-distance" else judgeDist D (H.spec s) (D.qv p) so (q d)
         | none => "skip bad-args" }
   | "cont" => some {
       model := fun a => run (do let s ← H.parse; let p ← D.pv; pure (fb (H.contains s p))) a
@@ -217,6 +219,7 @@ def mk (D : DimOps V I) (H : ShapeH V I σ) (op : String) : Option Handler :=
         | some (s, m, p, so) => withOut (ppOut D) o fun (ins, pr) =>
             let M := D.qiso m
             if !D.isoOk M then "skip non-unit-rotation"
+            else if !(H.spec s).valid then "skip shape-outside-domain"
             else if vNan D pr then "fail nan-projection"
             else judgeProj D (H.spec s) (D.invActQ M (D.qv p)) so ins (D.invActQ M (D.qv pr))
         | none => "skip bad-args" }
@@ -227,6 +230,7 @@ def mk (D : DimOps V I) (H : ShapeH V I σ) (op : String) : Option Handler :=
         | some (s, m, p, so) => withOut pfo o fun d =>
             let M := D.qiso m
             if !D.isoOk M then "skip non-unit-rotation"
+            else if !(H.spec s).valid then "skip shape-outside-domain"
             else if d.isNaN then "fail nan-distance"
             else judgeDist D (H.spec s) (D.invActQ M (D.qv p)) so (q d)
         | none => "skip bad-args" }
@@ -649,8 +653,9 @@ def locHandler {V I : Type → Type} {σ : Type} (D : DimOps V I) (parse : P σ)
                             let r := model s p so; pure s!"{fpp D r.1} {r.2}") a
   oracle := fun a o => match run (do let s ← parse; let p ← D.pv; let so ← pbool; pure (s, p, so)) a with
     | some (s, p, so) => withOut (do let r ← ppOut D; let l ← ploc; pure (r, l)) o fun ((ins, pr), l) =>
-        if vNan D pr then "fail nan-projection" else
         let S := spec s
+        if !S.valid then "skip shape-outside-domain" else
+        if vNan D pr then "fail nan-projection" else
         let P := D.qv p; let R := D.qv pr
         let j := judgeProj D S P so ins R
         if j != "pass" then j
@@ -740,6 +745,7 @@ def tetHandler (op : String) : Option Handler :=
           | "panic" :: _ => tetPanicVerdict S P so
           | _ => match run (do let r ← ppOut D3; let l ← ptriLocOut; pure (r, l)) o with
             | some ((ins, pr), l) =>
+              if !S.valid then "skip shape-outside-domain" else
               if vNan D3 pr then "fail nan-projection" else
               let R := q3 pr
               let j := judgeProj D3 S P so ins R
@@ -759,7 +765,7 @@ def tetHandler (op : String) : Option Handler :=
           let S := tetSpec s; let P := q3 p
           match o with
           | "panic" :: _ => tetPanicVerdict S P so
-          | _ => withOut pfo o fun d => if d.isNaN then "fail nan-distance" else judgeDist D3 S P so (q d)
+          | _ => withOut pfo o fun d => if !S.valid then "skip shape-outside-domain" else if d.isNaN then "fail nan-distance" else judgeDist D3 S P so (q d)
         | none => "skip bad-args" }
   | "cont" => some {
       model := fun a => run (do let s ← ptet; let p ← pv3
